@@ -82,7 +82,10 @@ def packTail (isCreate : Bool) (e : Handle) (initial : Mask) (sh : Shared) (w : 
     WM × List Cb :=
   if p.dead then (w, cbs) else
   let supplied := Mask.ofList (p.src.map (·.1))
-  let g := w.getArch p.final sh
+  let stay : Option Nat := if isCreate || !(initial == p.final) then none else (w.locOf e).arch
+  let g : WM × Nat := match stay with
+    | some pi => (w, pi)
+    | none => w.getArch p.final sh
   let m := packMoved info isCreate e initial g.1 g.2 p supplied
   let idx := (m.1.locOf e).idx
   let s := packStale info isCreate e initial g.2 idx p supplied m.1
